@@ -24,7 +24,7 @@ HW = 'options["hardware"]'
 def _layer_read_batch(ctx, args, kwargs):
     """layer.read_batch(regs) returns, position by position, what layer.read(reg) returns (RD); it may raise"""
     regs = args[0]
-    h = ctx.spec("hardware")
+    h = ctx.ex.ev(ctx.node.func.value, ctx.fr)      # the layer the call is made on
     n = ctx.list_len(regs)
     out = ctx.new_list(length=n, ty="list")
     j = z3.Int(ctx.st.fresh_name("rb"))
@@ -40,7 +40,7 @@ _layer_read_batch.modifies = []
 
 def _layer_read(ctx, args, kwargs):
     """layer.read(r) returns RD(layer, r); it may raise"""
-    h = ctx.spec('r.options["hardware"]')
+    h = ctx.ex.ev(ctx.node.func.value, ctx.fr)
     if ctx.choose(2, "layer.read outcome") == 1:
         ctx.raise_("HardwareLayerException", "layer read failed")
     return SV(RDf(h.term, args[0].term), None)
@@ -59,8 +59,8 @@ read_batch = Contract(
     ensures=[("same-length", "len(result) == len(registers)"),
              ("each-value-is-the-read-on-its-own-layer",
               f"all(result[k] == RD(registers[k].{HW}, registers[k]) for k in range(len(registers)))")],
-    raises={"HardwareLayerException": None},
-    calls={"hardware.read_batch": _layer_read_batch},
+    raises={"HardwareLayerException": None}, options={"default_unroll": BOUND},
+    calls={"*.read_batch": _layer_read_batch, "*.read": _layer_read},
     loops={"for r in registers": U,
            "for hardware, registers_belonging_to_hardware in registers_by_hardware.items()": U,
            "for register, read in zip(registers_belonging_to_hardware, reads)": U})
@@ -69,13 +69,13 @@ read = Contract(target=M + "read", types={"self": "Composite_Hardware", "r": "Re
                 requires=['has_key(r.options, "hardware")'],
                 ensures=[("value-is-the-read-on-its-own-layer", f"result == RD(r.{HW}, r)")],
                 raises={"HardwareLayerException": None},
-                calls={"r.options['hardware'].read": _layer_read})
+                calls={"*.read": _layer_read, "*.read_batch": _layer_read_batch})
 
 
 # ---- writes: ghost log of what each layer was asked to write -------------------------------------------------------------
 def _layer_write(ctx, args, kwargs):
     """layer.write(v, r): recorded in the ghost write log; it may raise"""
-    h = ctx.spec('r.options["hardware"]')
+    h = ctx.ex.ev(ctx.node.func.value, ctx.fr)
     if ctx.choose(2, "layer.write outcome") == 1:
         ctx.raise_("HardwareLayerException", "layer write failed")
     ctx.ghost.setdefault("wlog", []).append(("single", h, args[0], args[1]))
@@ -87,7 +87,7 @@ _layer_write.modifies = []
 
 def _layer_write_batch(ctx, args, kwargs):
     """layer.write_batch(values, regs): recorded in the ghost write log; it may raise"""
-    h = ctx.spec("hardware")
+    h = ctx.ex.ev(ctx.node.func.value, ctx.fr)
     if ctx.choose(2, "layer.write_batch outcome") == 1:
         ctx.raise_("HardwareLayerException", "layer write_batch failed")
     ctx.ghost.setdefault("wlog", []).append(("batch", h, args[0], args[1]))
@@ -153,14 +153,14 @@ def _write_batch_exit(ctx, kind, result):
 
 write = Contract(target=M + "write", types={"self": "Composite_Hardware", "r": "Register", "Register._options": "dict[str, Any]"},
                  requires=['has_key(r.options, "hardware")'], raises={"HardwareLayerException": None},
-                 calls={"r.options['hardware'].write": _layer_write}, on_exit=_write_exit)
+                 calls={"*.write": _layer_write, "*.write_batch": _layer_write_batch}, on_exit=_write_exit)
 
 write_batch = Contract(
     target=M + "write_batch", types=TYPES,
     requires=[HAS_HW, f"len(registers) <= {BOUND}", "len(values) == len(registers)",
               "all(registers[a] is not registers[b] for a in range(len(registers)) for b in range(a))"],
     raises={"HardwareLayerException": None},
-    calls={"hardware.write_batch": _layer_write_batch}, on_exit=_write_batch_exit,
+    calls={"*.write_batch": _layer_write_batch, "*.write": _layer_write}, on_exit=_write_batch_exit, options={"default_unroll": BOUND},
     loops={"for v, r in zip(values, registers)": U,
            "for hardware, registers_belonging_to_hardware in registers_by_hardware.items()": U})
 
